@@ -161,6 +161,10 @@ struct World {
     /// parked writers are polled again after every stimulus that lets the task run (off while a recorded
     /// list is replayed: the recorded polls are in the list)
     probe: bool,
+    /// while the calls of a `batch` are observed one by one: the events of the step are processed with the last one only
+    skip_events: bool,
+    /// a call of a `batch` is being observed (the events are those of all its calls together)
+    in_batch: bool,
 }
 
 const NAMES: [&str; 2] = ["A", "B"];
@@ -255,6 +259,8 @@ impl World {
             raw_push: false,
             quiesced: false,
             probe: true,
+            skip_events: false,
+            in_batch: false,
         };
         for v in &mut w.view {
             v.mux_alive = true;
@@ -308,7 +314,24 @@ impl World {
         }
         let src = self.next_src.take().unwrap_or_else(|| line.clone());
         self.steps.push(StepRec { line: line.clone(), src, out: out.clone() });
-        self.observe(e, &t, &out);
+        if t[0] == "batch" {
+            // each call is observed with its own answer; the events of the step (the task ran once, after
+            // all of them) are processed with the last one
+            let (rs, evs) = out.split_once(" | ").unwrap_or((out.as_str(), ""));
+            let rs: Vec<&str> = rs.split(" , ").collect();
+            let calls: Vec<&[&str]> = t[1..].split(|x| *x == ";").collect();
+            self.in_batch = true;
+            for (k, call) in calls.iter().enumerate() {
+                if call.is_empty() { continue; }
+                self.skip_events = k + 1 < calls.len();
+                let o = format!("{} | {}", rs.get(k).copied().unwrap_or("?"), evs);
+                self.observe(e, call, &o);
+            }
+            self.skip_events = false;
+            self.in_batch = false;
+        } else {
+            self.observe(e, &t, &out);
+        }
         if parked_before {
             *self.mon.entry("parked-writer-polled-again").or_insert(0) += 1;
             if !out.starts_with("pending") {
@@ -426,7 +449,7 @@ impl World {
                 // every queued frame to the transport before it is quiescent again, so the Push frames of
                 // this call are the Push frames among the events of this step — exactly one for a call
                 // that was accepted with a payload (any accepted `wpush`), none for a call left pending
-                if both_up && !lagging && self.view[e].mux_alive {
+                if both_up && !lagging && self.view[e].mux_alive && !self.in_batch {
                     let pushes = evs.split("; ").filter(|ev| ev.strip_prefix("wire ").and_then(parse_op) == Some(4)).count();
                     let want = match r {
                         ["wrote", n] if t[0] == "wpush" || *n != "0" => Some(1),
@@ -730,7 +753,8 @@ impl World {
             }
             _ => {}
         }
-        for ev in evs.split("; ").filter(|s| !s.is_empty()) {
+        let skip_events = self.skip_events;
+        for ev in evs.split("; ").filter(|s| !s.is_empty() && !skip_events) {
             let et: Vec<&str> = ev.split(' ').collect();
             match et.as_slice() {
                 ["wire", m] => {
@@ -1118,6 +1142,39 @@ fn run_case(r: &mut Rng, focus: Focus, len: usize) -> World {
             Focus::C12 => (30, 40, 3, 1, 1, 8, 3),
             Focus::C15 => (20, 10, 1, 2, 45, 5, 2),
         };
+        // now and then: several application calls back to back before the task runs again (distinct
+        // streams, plus a call on the Multiplexor)
+        if r.chance(1, 12) && !w.view[e].exited && w.view[e].mux_alive && !live.is_empty() {
+            let mut hs = live.clone();
+            for k in (1..hs.len()).rev() { let j = r.below(k as u64 + 1) as usize; hs.swap(k, j); }
+            hs.truncate(r.range(1, 3) as usize);
+            let mut t = vec![s("batch")];
+            for h in hs {
+                if t.len() > 1 { t.push(s(";")); }
+                let hi = &w.view[e].handles[h];
+                match r.below(8) {
+                    0..=2 if hi.pending_write.is_none() && !hi.shutdown => {
+                        let data = gen_payload(r, tags[e].wrapping_add(h as u8 * 37), hi.written.len());
+                        t.extend([s("write"), s(h), hexd(&data)]);
+                    }
+                    3..=5 => { t.extend([s("read"), s(h), s(*r.pick(&[1u64, 3, 64, 1024]))]); }
+                    6 if hi.pending_write.is_none() => { t.extend([s("shutdown"), s(h)]); }
+                    _ => { t.extend([s("dropstream"), s(h)]); }
+                }
+            }
+            // (no `open` inside a batch: a stream request is a future of its own, whose first round runs
+            // when the executor does — in a stimulus of its own that is right after the call, as the
+            // model has it; behind other calls its place relative to the task is the executor's choice)
+            match r.below(6) {
+                0 => { t.extend([s(";"), s("accept")]); }
+                1 | 2 => { t.extend([s(";"), s("dgrecv")]); }
+                _ => {}
+            }
+            if t.iter().filter(|x| x.as_str() == ";").count() >= 1 {
+                w.stim(e, &t);
+                continue;
+            }
+        }
         let total = wd + ws_ + wf + wdg + wb + wo + wdrop;
         let mut k = r.below(total);
         // deliver
@@ -1832,6 +1889,7 @@ fn link_projections(w: &World) -> Vec<(String, Vec<LinkReq>)> {
                 // the writer's handle comes into being
                 if !writer_has_handle && e == we {
                     let made = (t[0] == "accept" && res.starts_with(&format!("stream {wh} ")))
+                        || (t[0] == "batch" && res.split(" , ").any(|r| r.starts_with(&format!("stream {wh} "))))
                         || evs.split("; ").any(|ev| ev.starts_with("opendone ") && ev.ends_with(&format!(" ok {wh}")));
                     if made {
                         writer_has_handle = true;
@@ -1854,6 +1912,9 @@ fn link_projections(w: &World) -> Vec<(String, Vec<LinkReq>)> {
                         reqs.push(LinkReq { req: "shutdown".into(), expect: None, step: i });
                     }
                     // (several streams dropped at once: this direction is compared up to here)
+                    // (a batch of calls that touches one of the two stream ends: compared up to here)
+                    "batch" if (e == we && t[2..].split(|x| *x == ";").any(|c| c.get(1).and_then(|x| x.parse::<usize>().ok()) == Some(wh) && matches!(c[0], "write" | "read" | "shutdown" | "dropstream")))
+                        || (e == re && t[2..].split(|x| *x == ";").any(|c| c.get(1).and_then(|x| x.parse::<usize>().ok()) == Some(rh) && matches!(c[0], "write" | "read" | "shutdown" | "dropstream"))) => break,
                     "dropmany" if (e == we && t[2..].iter().any(|x| x.parse::<usize>().ok() == Some(wh))) || (e == re && t[2..].iter().any(|x| x.parse::<usize>().ok() == Some(rh))) => break,
                     "dropstream" if e == we && t.get(2).and_then(|x| x.parse::<usize>().ok()) == Some(wh) => {
                         writer_alive = false;
@@ -1926,6 +1987,7 @@ fn attribute(line: &str) -> Vec<&'static str> {
         "wstate" => vec!["C04", "C12"],
         "shutdown" => vec!["C05"],
         "dropstream" | "dropmany" => vec!["C06"],
+        "batch" => vec!["C02", "C03", "C04", "C05", "C06", "C07", "C08", "C10", "C11", "C12", "C15"],
         "dgsend" | "dgrecv" => vec!["C11"],
         "bindreq" | "bindnext" | "bindreply" | "binddrop" => vec!["C15"],
         "dropmux" | "sinkblock" | "sinkunblock" | "sinkgrant" => vec!["C08", "C02"],
